@@ -20,6 +20,7 @@ func main() {
 	tags := flag.String("tags", os.Getenv("VERIF_TAGS"), "build tags")
 	list := flag.Bool("list", false, "list properties")
 	noEvidence := flag.Bool("no-evidence", false, "do not write evidence/report (used by control runs)")
+	survey := flag.String("survey-locks", "", "pkg.Type: print field accesses with locksets")
 	describe := flag.Bool("describe", false, "print the registered properties with their decided / not decided clauses as JSON")
 	flag.Parse()
 	if *describe {
@@ -72,6 +73,23 @@ func main() {
 	}
 	a.Tier = *tier
 	a.prop = p
+	if *survey != "" {
+		parts := strings.SplitN(*survey, ".", 2)
+		a.Rule("survey", 0, func() {
+			if *tier == "compact" {
+				for _, s := range strings.Split(*survey, ",") {
+					pp := strings.SplitN(s, ".", 2)
+					a.SurveyLocksCompact(a.Named(pp[0], pp[1]))
+				}
+				return
+			}
+			a.SurveyLocks(a.Named(parts[0], parts[1]))
+		})
+		for _, o := range a.obs {
+			fmt.Println(o.Verdict, o.Detail)
+		}
+		return
+	}
 	p.Run(a)
 	if *noEvidence {
 		// control mode: print failing obligations only
